@@ -60,6 +60,9 @@ MUT = [
     ("C18", "Boolean.decode case-insensitive (accepts True)", True, [(DT, '        if data == "true":\n            return True', '        if data.lower() == "true":\n            return True')]),
     ("C18", "negative durations: sign applied to the days only", True, [(DT, "        return -delta if sign else delta",
         "        return timedelta(days=-delta.days, seconds=delta.seconds) if sign else delta")]),
+    ("C18", "Unit.__str__ back to str(Decimal) (exponent for 1E+5)", True, [(DT, 'return f"{self.value:f}{self.unit}"', 'return str(self.value) + self.unit')]),
+    ("C18", "Unit(text) without the default unit (\"1.5\" gets an empty unit)", True, [(DT, "            unit = match.group(2) or unit", "            unit = match.group(2)")]),
+    ("C18", "Duration.encode: fraction written with %d instead of %06d (1.05 s -> PT..01.50000S)", True, [(DT, "{microseconds % 1000000:06d}S", "{microseconds % 1000000:d}S")]),
     ("C18", "REWRITE Duration.encode with divmod on integers", False, [(DT,
         "        hours = microseconds / (60 * 60 * 1000000)\n        microseconds %= 60 * 60 * 1000000\n\n        minutes = microseconds / (60 * 1000000)\n        microseconds %= 60 * 1000000\n\n        seconds = microseconds / 1000000\n",
         "        hours, microseconds = divmod(microseconds, 60 * 60 * 1000000)\n        minutes, microseconds = divmod(microseconds, 60 * 1000000)\n        seconds = microseconds // 1000000\n")]),
